@@ -283,6 +283,8 @@ def shapes_for(t, tier):
         if nm == 'TXT':
             for strs in ([0], [2], [1, 0, 3]) + (([255], [254, 1]) if thorough else ()):   # RFC 1035: one or more strings
                 out.append({'strs': list(strs)})
+            # an empty TXT is not a valid RFC value (written as one empty string): framing is checked, field equality is not
+            out.append({'strs': [], 'skip_eq': True})
         elif nm == 'NSAP':
             out.append({})
         elif nm == 'OPT':
